@@ -347,6 +347,8 @@ builtin_exec(spif_charptr_t param)
     if (maxlen > CONFIG_BUFF) {
         libast_print_error("Parse error in file %s, line %lu:  Cannot execute command, line too long\n",
                            file_peek_path(), file_peek_line());
+        close(fd);
+        remove((char *) OutFile);
         return ((spif_charptr_t) NULL);
     }
     Command = (spif_charptr_t) MALLOC(CONFIG_BUFF);
